@@ -18,6 +18,8 @@ pub enum Place {
     End,
     Start,
     Mid(u8),
+    /// a 4 KiB page boundary falls exactly `k` bytes after the start of the buffer
+    Cross(u16),
 }
 
 impl Place {
@@ -26,12 +28,14 @@ impl Place {
             Place::End => 1000,
             Place::Start => 1001,
             Place::Mid(a) => a as u32,
+            Place::Cross(k) => 2000 + k as u32,
         }
     }
     pub fn from_code(c: u32) -> Place {
         match c {
             1000 => Place::End,
             1001 => Place::Start,
+            c if c >= 2000 => Place::Cross((c - 2000) as u16),
             a => Place::Mid((a % 32) as u8),
         }
     }
@@ -113,6 +117,7 @@ impl Arena {
                     let a = a as usize;
                     (a + align - 1) / align * align
                 }
+                Place::Cross(k) => ((k as usize % 32) + align - 1) / align * align,
                 _ => 0,
             };
             let total = (len + pad).max(1);
@@ -137,6 +142,12 @@ impl Arena {
                 let a = (a as usize + align - 1) / align * align;
                 // SAFETY: inside the region (checked above)
                 unsafe { self.lo.add(64 + a) }
+            }
+            Place::Cross(k) => {
+                // an interior page boundary of the region, k bytes after the buffer start
+                let k = (k as usize).min(len).min(PAGE - 1);
+                // SAFETY: the region has at least 16 pages (checked by the caller's sizes)
+                unsafe { self.lo.add(8 * PAGE - k) }
             }
         };
         let p = if place == Place::End { ((p as usize) & !(align - 1)) as *mut u8 } else { p };
